@@ -98,6 +98,16 @@ reg("C05", "exploration",
     "property-based testing (Hypothesis) with structure-aimed generators and accounting oracle",
     "DESIGN.md section 4 C05")
 
+reg("C18", "exploration",
+    "Hypothesis-generated genomes with every splice-dinucleotide class, antisense twin genes sharing intron "
+    "coordinates, soft-masked segments and reads of both orientations; a FASTA-only oracle recomputes the Canonical "
+    "flag of every stranded row and model and the strand of novel spliced models, and a metamorphic relation compares "
+    "each read's flag between the full run and a run on a random subset of the reads.",
+    "Rows without strand are compared between runs only; model-strand oracle is three-valued; three repaired defects "
+    "listed as fixed in known_findings.jsonl.",
+    "property-based testing (Hypothesis) with FASTA-only oracle + metamorphic read-subset relation",
+    "DESIGN.md section 4 C18")
+
 NOT_YET = "check not built yet in this session (see DESIGN.md section 6a build order)"
 
 
